@@ -104,6 +104,7 @@ var vpTopNames = []string{"event_id", "type", "room_id", "sender", "state_key", 
 
 // vp:check C05 quick configs=version:1|6|8|9|11|12;klen:4|6|7|10 K=12 timeout=900
 // vp:check C05 quick configs=version:11;klen:18 K=24 timeout=900
+// vp:check C18 both configs=version:11|12;klen:18 K=24 timeout=900
 // vp:check C05 quick configs=version:2|3|4|5|7|10|org.matrix.msc3787|org.matrix.msc3667|org.matrix.msc4014|org.matrix.hydra.11;klen:7 K=12 timeout=900
 // vp:check C05 thorough configs=version:ALLVERSIONS;klen:3|4|5|6|7|8|9|10|11|13|14|16|18 K=24 timeout=1800
 // vp_C05_redact: redaction keeps exactly the top-level keys and, per event type, exactly the content keys the room
